@@ -930,6 +930,10 @@ def oracle_c18_blocks(ctx, budget_s):
             order = [exprs[0], exprs[1]]          # the Nest first, then the block it was made from
         elif it == 2:
             order = [exprs[1], exprs[0]]
+        elif it == 3:
+            order = [exprs[0], exprs[3]]          # the MinimumTrials object of the nested block reused by a new CrossBlock
+        elif it == 4:
+            order = [exprs[3], exprs[0], exprs[4]]
         built = D.Built()
         desc0 = {"factors": factors}
         for f in factors:
